@@ -617,6 +617,21 @@ Lemma ready_list l :
   = forallb ready l.
 Proof. induction l as [|x r IH]; [reflexivity|]. cbn [forallb]. rewrite <- IH. reflexivity. Qed.
 
+Lemma ready_attrs_list l :
+  (fix ral (l : list node) : bool :=
+     match l with
+     | [] => true
+     | x :: r => (match x with JAttr _ _ | Spread _ => ready x | _ => false end) && ral r
+     end) l
+  = forallb ready_attr l.
+Proof. induction l as [|x r IH]; [reflexivity|]. cbn [forallb]. rewrite <- IH. reflexivity. Qed.
+
+Lemma ready_attr_ready l : forallb ready_attr l = true -> forallb ready l = true.
+Proof.
+  induction l as [|x r IH]; [reflexivity|]. cbn [forallb]. intros H. apply andb_true_iff in H.
+  destruct H as [Hx Hr]. rewrite (IH Hr), andb_true_r. destruct x; try discriminate Hx; exact Hx.
+Qed.
+
 Lemma lower_children_free cs :
   Forall P cs -> forall s, forallb ready cs = true ->
   forallb jf (fst (lower_children_with E (lower_el E) cs s)) = true.
@@ -682,8 +697,9 @@ Theorem lower_el_free_P : forall n, P n.
 Proof.
   apply node_ind'; intros; split; try discriminate; try (intros ? ? Heq; discriminate Heq).
   - (* JsxE *)
-    intros _ s Hrd. cbn [ready] in Hrd. rewrite !ready_list in Hrd.
+    intros _ s Hrd. cbn [ready] in Hrd. rewrite ready_list, ready_attrs_list in Hrd.
     apply andb_true_iff in Hrd. destruct Hrd as [Hrd Hch]. apply andb_true_iff in Hrd. destruct Hrd as [Hnm Hat].
+    apply ready_attr_ready in Hat.
     cbn [lower_el].
     match goal with H : Forall P ats |- _ => pose proof (lower_attr_values_free _ H (push_slot_flag E s) Hat) as Hav end.
     destruct (lower_attr_values_with (lower_el E) ats (push_slot_flag E s)) as [attrs s1]. cbn [fst] in Hav.
